@@ -30,6 +30,7 @@ type C05Job struct {
 	LazyBeh  []Behaviour  `json:"lazy_beh"`
 	Burst    int          `json:"burst"`
 	RealTime bool         `json:"realtime"`
+	Straddle int          `json:"straddle"` // rounds of the second-boundary scenario
 	OptTTLs  []uint32     `json:"opt_ttls"`
 }
 
@@ -112,6 +113,9 @@ func runC05(j *C05Job) error {
 		}
 		vh.Emit(rec)
 	}
+	if j.Straddle > 0 {
+		straddle(&j.Map, hv, j.Straddle)
+	}
 	if j.RealTime {
 		realTime(&j.Map, hv)
 	}
@@ -170,4 +174,40 @@ func realTime(m *Map, hv *keyHarvester) {
 		}()
 	}
 	wg.Wait()
+}
+
+// straddle: "lowered by the WHOLE seconds elapsed": an answer stored late in a wall-clock second and served
+// early in the next one, less than one second later, must be served with its TTLs unchanged. The harness
+// measures the wall clock around both calls; only if less than 0.95 s passed in total the lookup is
+// logged with "skew": 0 (no one-second band), otherwise the round is discarded.
+func straddle(m *Map, hv *keyHarvester, rounds int) {
+	q := AQ{N: "n1", T: "t1", C: "c1", F: 0, K: "std"}
+	for r := 0; r < rounds; r++ {
+		for attempt := 0; attempt < 3; attempt++ {
+			w := newWorld(m, 0, hv, []int{1})
+			kn := map[int]known{}
+			w.inst(1)
+			for {
+				f := time.Now().Nanosecond()
+				if f >= 780e6 && f <= 860e6 {
+					break
+				}
+				time.Sleep(4 * time.Millisecond)
+			}
+			ta := time.Now()
+			w.base = ta
+			w.doExec(1, q, AR{Rc: 0, Nan: 1, Ttls: []int{8, 20}}, kn)
+			time.Sleep(time.Until(ta.Truncate(time.Second).Add(time.Second + time.Duration(120+40*r)*time.Millisecond)))
+			w.doExec(1, q, AR{Rc: 0, Nan: 1, Ttls: []int{77}}, kn)
+			tb := time.Now()
+			w.close()
+			if tb.Sub(ta) >= 950*time.Millisecond {
+				continue // a full second may have passed: no exact expectation
+			}
+			w.events[len(w.events)-1]["skew"] = 0
+			vh.Emit(TraceRec{Kind: "trace", Beh: r, Tag: "straddle", Events: w.events, Slow: false,
+				Extra: ev{"elapsed_ms": int(tb.Sub(ta) / time.Millisecond)}})
+			break
+		}
+	}
 }
